@@ -13,6 +13,7 @@ import JxlModel.Driver.C15
 import JxlModel.Driver.C05
 import JxlModel.Driver.C12
 import JxlModel.Driver.C08
+import JxlModel.Driver.C09
 
 def main (args : List String) : IO UInt32 := do
   match args with
@@ -36,4 +37,6 @@ def main (args : List String) : IO UInt32 := do
   | ["c12"] => Jxl.Driver.C12.main; return 0
   | ["c08"] => Jxl.Driver.C08.main; return 0
   | ["c20"] => Jxl.Driver.C08.main; return 0
+  | ["c09"] => Jxl.Driver.C09.main; return 0
+  | ["c11"] => Jxl.Driver.C09.mainC11; return 0
   | _ => IO.eprintln "usage: jxlmodel <component>"; return 2
